@@ -1,6 +1,7 @@
 package props
 
 import (
+	"reflect"
 	"sort"
 	"os"
 	"encoding/json"
@@ -83,6 +84,19 @@ func (c11) Gen(seed uint64, run int, tier string) *Plan {
 				// an operator logs in on a busy teamserver: its replay is held up (C = 3: its handler is
 				// stalled at a drawn step) while a few hundred events are broadcast; they all follow
 				p.Actions = append(p.Actions, Action{Kind: "par", A: 1, C: 3, D: r.Intn(400), B: 260 + r.Intn(80)}, Action{Kind: "login", A: o})
+			} else if p.Policy.Name != "atomic" && r.Intn(5) == 0 {
+				// an operator logs in while another one's input for an agent is being turned into a task,
+				// or while a listener's failed start is being recorded (C = 4: fault "stalled goroutine",
+				// placed - the handler of the group's first member gets no CPU from the moment it is
+				// about to write into the Info map of an event package until the login is through)
+				if r.Intn(2) == 0 {
+					p.Actions = append(p.Actions, Action{Kind: "par", A: 2, C: 4, D: r.Intn(8)}, Action{Kind: "task", A: 0, B: d, D: r.Intn(50)}, Action{Kind: "login", A: o})
+				} else {
+					// (C = 5: the failed start is held up before it is recorded; the login's replay gets as
+					// far as the last retained event - the listener's announcement - and is held up in
+					// turn; the failure is recorded)
+					p.Actions = append(p.Actions, Action{Kind: "par", A: 2, C: 5}, Action{Kind: "ladd", A: 0, B: r.Intn(3), C: 2, D: 1}, Action{Kind: "login", A: o})
+				}
 			} else if p.Policy.Name != "atomic" && r.Intn(3) == 0 {
 				// an operator logs in while an agent's console output is being distributed: the handler
 				// of the agent's request gets no CPU from some point on (C = 2: fault "stalled
@@ -163,7 +177,8 @@ func (c11) Exec(p *Plan, dir string) *Result {
 				n = len(p.Actions) - 1 - i
 			}
 			st.strictNow = false
-			var stalled []*simrt.Task
+			var stalled, heldUp []*simrt.Task
+			retained := 0
 			for gi, b := range p.Actions[i+1 : i+1+n] {
 				if a.C == 1 && gi == (n+1)/2 {
 					// fault: whatever is in the middle of something right now (a login's replay, a
@@ -183,6 +198,49 @@ func (c11) Exec(p *Plan, dir string) *Result {
 					res.Probe("bursts-of-broadcasts-during-a-login")
 					continue
 				}
+				if a.C == 5 && gi == 0 {
+					if w.Sim.RunToSite("b:(*Teamserver).EventListenerError", 1, 8000) {
+						heldUp = w.Sim.Stall(w.Sim.SiteTask)
+						retained = len(w.TS.EventsList)
+						res.Probe("fault:stalled-goroutine")
+					}
+					continue
+				}
+				if a.C == 5 && gi == 1 && heldUp != nil && retained > 0 {
+					// (the retained announcement of the listener whose start failed)
+					var last uintptr
+					for k := retained - 1; k >= 0 && last == 0; k-- {
+						lname, _ := st.lname(p.Actions[i+1])
+						if e := w.TS.EventsList[k]; e.Head.Event == world.EvListener && e.Body.SubEvent == world.ListenerAdd && e.Body.Info["Name"] == lname {
+							last = reflect.ValueOf(e.Body.Info).Pointer()
+						}
+					}
+					for k := 0; k < 600 && w.Sim.RunToSite("#evr", 1, 30000); k++ {
+						if last != 0 && w.Sim.SiteTask.PendingMap() == last {
+							stalled = w.Sim.Stall(w.Sim.SiteTask)
+							res.Probe("failed-start-recorded-while-a-replay-is-at-the-listener's-announcement")
+							break
+						}
+					}
+					w.Sim.Release(heldUp)
+					if os.Getenv("VERIF_DEBUG") != "" {
+						fmt.Fprintf(os.Stderr, "C11 C=5: run=%d retained=%d last=%x stalled=%v heldUp=%s state=%v blockOn=%q\n", p.Run, retained, last, stalled != nil, heldUp[0].Name, heldUp[0].State, heldUp[0].BlockOn)
+					}
+					w.Sim.Run(nil, false)
+					if os.Getenv("VERIF_DEBUG") != "" {
+						fmt.Fprintf(os.Stderr, "C11 C=5 after: heldUp state=%v blockOn=%q problems=%d\n", heldUp[0].State, heldUp[0].BlockOn, len(w.Sim.Problems))
+					}
+					heldUp = nil
+					continue
+				}
+				if a.C == 4 && gi == 0 {
+					if w.Sim.RunToSite("#evw", 1+a.D%6, 6000) {
+						stalled = w.Sim.Stall(w.Sim.SiteTask)
+						res.Probe("fault:stalled-goroutine")
+						res.Probe("login-while-a-handler-is-stalled-before-a-write-to-an-event-map")
+					}
+					continue
+				}
 				if a.C == 2 && gi == 0 {
 					w.Sim.RunSteps(uint64(a.D))
 					stalled = w.Sim.StallRunnable()
@@ -191,6 +249,9 @@ func (c11) Exec(p *Plan, dir string) *Result {
 					continue
 				}
 				w.Sim.RunSteps(uint64(w.Sim.SchedRand().Intn(60)))
+			}
+			if heldUp != nil {
+				w.Sim.Release(heldUp)
 			}
 			if stalled != nil {
 				// (no virtual time passes while they are stalled: a goroutine that gets no CPU for
